@@ -14,7 +14,7 @@ from typing import Any
 CSF_SIZE = 0x2000
 
 
-def _build(repo: str, app_path: str, start: int, ivt_offset: int, initial_load: int, flags: int) -> Any:
+def _build(repo: str, app_path: str, start: int, ivt_offset: int, initial_load: int, flags: int, xmcd_path: Any = None) -> Any:
     from spsdk.image.hab.hab_container import HabContainer
 
     data = os.path.join(repo, "tests", "nxpimage", "data", "hab", "export")
@@ -25,6 +25,8 @@ def _build(repo: str, app_path: str, start: int, ivt_offset: int, initial_load: 
     cfg: dict = {"options": {"flags": flags, "startAddress": start, "ivtOffset": ivt_offset, "initialLoadSize": initial_load,
                              "signatureTimestamp": "04/05/2023 11:27:43"},
                  "sources": {"elfFile": app_path}, "sections": []}
+    if xmcd_path:
+        cfg["options"]["XMCDFilePath"] = xmcd_path
     if flags & 0x8:
         cfg["sections"] = [
             section(20, Header_Version="4.2", Header_HashAlgorithm="sha256", Header_Engine="ANY", Header_EngineConfiguration=0,
@@ -64,7 +66,7 @@ def _cms_ok(repo: str, sig_blob: bytes, signed: bytes) -> str:
     return ""
 
 
-def _check(repo: str, tmp: str, app_len: int, start: int, ivt_offset: int, ils: int, flags: int) -> str:
+def _check(repo: str, tmp: str, app_len: int, start: int, ivt_offset: int, ils: int, flags: int, xmcd: bytes = b"") -> str:
     from spsdk.image.hab.hab_container import HabContainer
 
     app = bytearray((i * 7 + 3) & 0xFF or 0x5A for i in range(app_len))
@@ -74,7 +76,14 @@ def _check(repo: str, tmp: str, app_len: int, start: int, ivt_offset: int, ils: 
     path = os.path.join(tmp, "app.bin")
     with open(path, "wb") as f:
         f.write(app)
-    blob = _build(repo, path, start, ivt_offset, ils, flags).export()
+    xmcd_path = None
+    if xmcd:
+        xmcd_path = os.path.join(tmp, "xmcd.bin")
+        with open(xmcd_path, "wb") as f:
+            f.write(xmcd)
+    blob = _build(repo, path, start, ivt_offset, ils, flags, xmcd_path).export()
+    if xmcd and blob[0x40: 0x40 + len(xmcd)] != xmcd:
+        return "XMCD block is not at IVT + 0x40"
     tag, length, version = struct.unpack_from(">BHB", blob, 0)
     entry, _r1, dcd, bdt, self_ptr, csf_ptr, _r2 = struct.unpack_from("<7L", blob, 4)
     if (tag, length, version & 0xF0) != (0xD1, 0x20, 0x40):
@@ -130,6 +139,8 @@ def _check(repo: str, tmp: str, app_len: int, start: int, ivt_offset: int, ils: 
     need = set(range(self_ptr, self_ptr + 0x40)) | set(range(start + ils, start + ils + app_len))
     if not need <= covered:
         return "Authenticate-Data blocks do not cover IVT, boot data and the whole application"
+    if xmcd and not set(range(self_ptr + 0x40, self_ptr + 0x40 + len(xmcd))) <= covered:
+        return f"Authenticate-Data blocks do not cover the {len(xmcd)}-byte XMCD block at IVT + 0x40 (blocks: {[(hex(a), n) for a, n in blocks]})"
     err = _cms_ok(repo, csf[sig_off:], signed)
     if err:
         return err
@@ -229,6 +240,19 @@ def run(tier: str, seed: int, reg: Any, jobs: int = 16) -> list:
                         fails.append({"inputs": {"app_len": hex(app_len), "start": hex(start), "ivt_offset": hex(ivt_offset), "initial_load": hex(ils),
                                                  "flags": flags}, "detail": err, "obligation": "hab-image-decoded-by-hand"})
     enc = _encrypted(repo, tier)
+    # authenticated image that carries an XMCD block: the signature has to cover it as well
+    from spsdk.image.segments import SegXMCD, XMCDHeader
+
+    with tempfile.TemporaryDirectory() as tmp2:
+        n += 1
+        try:
+            xm = SegXMCD(XMCDHeader(), bytes(range(1, 9))).export()
+            err = _check(repo, tmp2, 0x1234, 0x20200000, 0x0000, 0x2000, 0x08, xmcd=xm)
+        except Exception as e:  # pylint: disable=broad-except
+            err = f"{type(e).__name__}: {e}"
+        if err:
+            fails.append({"inputs": {"app_len": "0x1234", "start": "0x20200000", "ivt_offset": "0x0", "initial_load": "0x2000", "flags": 8, "xmcd_bytes": 12},
+                          "detail": err, "obligation": "hab-image-decoded-by-hand"})
     return [enc, {"name": "HAB images decoded by hand (layout, block list, independent CMS check, parse back)",
              "function": "spsdk.image.hab.hab_container:HabContainer.load_from_config/export/parse",
              "method": "authenticated (RSA-2048 test keys) and plain images over 3 layouts x application lengths dense around the 16 B / 4 KiB boundaries",
